@@ -6,7 +6,7 @@ ROOT = os.path.dirname(os.path.dirname(os.path.abspath(__file__)))
 MODES = {
     "C01": ["adf"], "C02": ["adf"], "C03": ["adf"], "C05": ["adf"], "C09": ["adf"],
     "C06": ["bdd", "persist"], "C07": ["bdd"], "C11": ["bdd", "adf"], "C13": ["bdd"], "C14": ["persist", "bdd"],
-    "C18": ["ng"], "C19": ["mirror"], "C20": ["iters"], "C04": ["c04"], "C10": ["c10"],
+    "C18": ["ng"], "C19": ["mirror"], "C20": ["iters"], "C04": ["c04", "bdd"], "C10": ["c10"],
     # C12: the diagram-level oracle (truth tables, path / depth / model / dependency references) against builds of the crate
     # under non-default feature sets; "mode@cfg" selects the build
     "C12": ["bdd@c_n", "bdd@c_pm"],
